@@ -519,13 +519,14 @@ func (g *valGen) count() int {
 	case m < 12:
 		n = rapid.IntRange(1, 4).Draw(t, "cnt")
 	case m < 16:
-		n = rapid.SampledFrom([]int{2, 8, 9, 16, 17, 31, 32, 33}).Draw(t, "cntb")
+		// bucket boundaries and the sizes at which a Go map built by inserts is mid-growth (6.5*2^B + 1..)
+		n = rapid.SampledFrom([]int{2, 8, 9, 16, 17, 27, 29, 31, 32, 33, 53, 55}).Draw(t, "cntb")
 	case m < 19:
 		n = rapid.IntRange(0, max).Draw(t, "cntu")
 	default:
-		n = rapid.SampledFrom([]int{100, 130, 255, 256, 257, 300}).Draw(t, "cntl")
+		n = rapid.SampledFrom([]int{100, 105, 111, 130, 209, 255, 256, 257, 300}).Draw(t, "cntl")
 	}
-	if n > max && max < 100 {
+	if n > max && max < 50 {
 		n = max
 	}
 	return n
